@@ -7,5 +7,5 @@ From FJ Require Import Model.Num Model.Expr.
 Extraction Language OCaml.
 Cd "../ocaml/gen".
 Extraction "safe.ml" eval ceval ieval vjp safeb crit gidx lp_t fwd_t inv_t ld_fwd_t ld_inv_t base_lp_t norm_logpdf_t
-  rqs_deriv_t rqs_deriv_old_t rqs_deriv_zero_t nV push prim_t log_prob_classes post cadd.
+  rqs_deriv_t rqs_deriv_old_t rqs_deriv_zero_t nV push lp_chain chain_steps chain_nvars margin prim_t log_prob_classes post cadd.
 Cd "../../coq".
